@@ -7,10 +7,10 @@ ROOT = os.path.dirname(os.path.dirname(os.path.abspath(__file__)))
 
 # id -> (engines, technique, level text, level note)
 P = {
-    "C01": ("shadow-q native", "exact-rational shadow execution (cgmath monomorphised at a monitoring scalar) vs array model; native small-integer f32/f64 bit equality",
+    "C01": ("shadow-q native", "exact-rational shadow execution (cgmath monomorphised at a monitoring scalar) vs array model; native small-integer f32/f64 bit equality; native badly-scaled products vs double-double model",
             "Runs the real generic matrix code at an exact rational scalar on thousands of random matrices/vectors per dimension and compares every element with an independent column-major array model (layout readers, A*v, A*B, embeddings, constructors as transforms, element-wise ops, ring laws, all operand forms). Exact equality: no tolerance, so a refactoring that keeps the property cannot fire and any index/sign/term slip changes a low-degree polynomial and is seen on the first non-trivial case.",
             "Held on the executions explored (small rationals, f32/f64 small integers); i128 arithmetic; not a for-all proof."),
-    "C02": ("shadow-q native miri", "exact-rational shadow execution on generic, exactly singular and tiny-determinant matrices; mutation histories vs array model; Miri (thorough) for the unsafe helpers",
+    "C02": ("shadow-q native miri", "exact-rational shadow execution on generic, exactly singular and tiny-determinant matrices; mutation histories vs array model; native scaled integer matrices vs exact i128 determinant, bitwise exchange monitor, f32/f64 twin runs; Miri (thorough) for the unsafe helpers",
             "invert() None iff Leibniz determinant = 0 decided exactly on three matrix families, two-sided inverse, determinant laws, transpose laws, swap/replace histories with all index pairs, inverse_transform = invert. Thorough tier adds the Miri workload over swap_*/determinant/invert.",
             "Exact rationals in i128; UB only judged by Miri on the workload's executions (Tree Borrows gate)."),
     "C03": ("shadow-q native", "exact-rational shadow execution vs component model; native integer vectors with i128 overflow-free model",
@@ -22,13 +22,13 @@ P = {
     "C05": ("shadow-q native", "exact-rational shadow execution; coverage-directed generation of all four matrix-to-quaternion branches",
             "For exact rational unit quaternions the four representations are compared with the harness' own sandwich-product rotation matrix; composition, orthonormality, det=+1, and the +-q round trip with every one of the four internal cases required to be observed (classes decided from the specification).",
             "Rational unit quaternions make all four square roots rational; held on explored cases."),
-    "C06": ("shadow-iv shadow-q native", "rigorous interval shadow execution (enclosure intersection with Rodrigues model) + native f64 containment self-test",
+    "C06": ("shadow-iv shadow-q native", "rigorous interval shadow execution (enclosure intersection with Rodrigues model) + native f64 containment self-test; native f32/f64 constructors vs f64 Rodrigues on tiny / near-half-turn / many-turn angles; twin runs",
             "Runs the real code at an outward-rounded interval scalar; every constructor's action must intersect the model's Rodrigues enclosure (widths ~1e-12), for Rad and Deg, exact and normalised axes, x/y/z vs axis-angle, 2-D, composition, inverse; the native f64 run must lie inside the enclosures.",
             "IEEE-754 basic ops correctly rounded, glibc trig within 4 ulp; deviations below the enclosure width are not detectable."),
-    "C07": ("shadow-iv native", "interval shadow execution vs model Rx*Ry*Rz; extraction monitored on exact rational quaternions incl. gimbal cone and threshold ladder",
+    "C07": ("shadow-iv native", "interval shadow execution vs model Rx*Ry*Rz; extraction monitored on exact rational quaternions incl. gimbal cone and threshold ladder; native f32/f64 from(Euler) vs the crate's own elementary rotations near +-90 degrees and over many turns; twin runs",
             "from(Euler) for four types vs the model product; Euler::from(q) range membership, exact rebuild below |sin y|=0.998, x=0 / y=+-pi/2 / 0.13 bound inside the cone, with inputs on both sides of the threshold down to 1e-9 relative distance.",
             "As C06; zone decided by the model's own sin y, undecidable cases demand nothing."),
-    "C08": ("shadow-q native", "exact-rational shadow execution of all five Transform implementations vs function-composition model",
+    "C08": ("shadow-q native", "exact-rational shadow execution of all five Transform implementations vs function-composition model (affine, projective, zero-translation and scaled-affine 4x4); native similarity transforms in large/small units; twin runs",
             "concat/*/concat_self = composition, one(), transform_vector ignores disp, inverse None/Some by scale or determinant incl. the 1e-6 ladder, inverse_transform_vector, Decomposed->matrix commutes with apply/concat/invert; affine and projective matrices.",
             "Exact rationals; band 0<|scale|<=1e-6 left open as in the statement."),
     "C09": ("shadow-q shadow-iv native", "exact shadow execution on exact look-at configurations + interval shadow execution on arbitrary ones; every look_* entry point incl. deprecated spellings",
@@ -37,10 +37,10 @@ P = {
     "C10": ("shadow-q shadow-iv native", "exact shadow execution (ortho, frustum) / interval shadow execution (perspective, planar) on view-volume corners; panic-event monitor on f32/f64",
             "Corner and interior points of the view volume through transform_point vs the clip cube; perspective vs frustum of the symmetric window; planar window, planes and focal point; each stated precondition violated alone must panic, valid tuples must not.",
             "Panics observed by catch_unwind; tan within 4 ulp."),
-    "C11": ("shadow-q shadow-iv native", "exact shadow execution on rational-length vectors + interval shadow execution elsewhere",
+    "C11": ("shadow-q shadow-iv native", "exact shadow execution on rational-length vectors + interval shadow execution elsewhere; native scaled integer vectors and closed-form nearly-parallel angles",
             "magnitude/distance/normalize/normalize_to/project_on/angle identities for Vector1-4, Quaternion, Point1-3, 2-D signed angle against a model rotation.",
             "acos evaluated over the reals (clipped enclosure)."),
-    "C12": ("shadow-q native", "exact-rational shadow execution vs component model; native integer points",
+    "C12": ("shadow-q native", "exact-rational shadow execution vs component model; native integer points (incl. midpoint with truncating division); midpoint near the end of the float range",
             "All affine-space laws verbatim, 20 ElementWise methods, midpoint, centroid of 1-9 points, homogeneous round trip for any k != 0; additive laws on integer scalars without overflow.",
             "Exact rationals; held on explored cases."),
     "C13": ("shadow-q shadow-iv native", "exact shadow execution for modular clauses, interval shadow execution for trigonometry, native f32/f64 range/round-trip monitors (thorough: every finite f32 bit pattern)",
